@@ -9,14 +9,8 @@ namespace Pew.Sync
 within 5e-7 of `j` — in particular for the float quotient of four-decimal coordinates, which is
 within 1e-9 of the exact integer quotient. -/
 theorem pixel_index_robust (j : Nat) (δ : Rat) (h1 : -(5 / 10000000) < δ) (h2 : δ < 5 / 10000000) :
-    pixIdx ((j : Rat) + δ) = (j : Int) := by
-  unfold pixIdx round6
-  have e : ((j : Rat) + δ) * 1000000 = (((j * 1000000 : Nat) : Int) : Rat) + δ * 1000000 := by
-    push_cast; ring
-  rw [e, roundHalfEven_near _ _ (by linarith) (by linarith)]
-  have : ((((j * 1000000 : Nat) : Int) : Rat)) / 1000000 = ((j : Int) : Rat) := by
-    push_cast; field_simp
-  rw [this, truncR_int]
+    pixIdx ((j : Rat) + δ) = (j : Int) :=
+  pixIdx_near j δ h1 h2
 
 example : pixIdx ((32 : Nat) + (-(1 : Rat) / 1000000000)) = 32 :=
   pixel_index_robust 32 _ (by norm_num) (by norm_num)
@@ -39,13 +33,8 @@ example : pixIdxTrunc ((32 : Nat) + (-(1 : Rat) / 1000000000)) = 31 := by
 `u`·1e-4 µm > 0) is pixel `j`, also when the quotient is perturbed by less than 5e-7. -/
 theorem pixel_of_aligned (o : Int) (u j : Nat) (hu : 0 < u) (δ : Rat)
     (h1 : -(5 / 10000000) < δ) (h2 : δ < 5 / 10000000) :
-    pixIdx (quot o ((u : Rat) / 10000) (o + (j * u : Nat)) + δ) = (j : Int) := by
-  have hq : quot o ((u : Rat) / 10000) (o + (j * u : Nat)) = (j : Rat) := by
-    unfold quot
-    have hu' : (u : Rat) ≠ 0 := by exact_mod_cast hu.ne'
-    have : ((o + ((j * u : Nat) : Int) - o : Int) : Rat) = (j : Rat) * (u : Rat) := by push_cast; ring
-    rw [this]; field_simp
-  rw [hq]; exact pixel_index_robust j δ h1 h2
+    pixIdx (quot o ((u : Rat) / 10000) (o + (j * u : Nat)) + δ) = (j : Int) :=
+  pixIdx_aligned o u j hu δ h1 h2
 
 example : toPix 803946132 ((11000 : Nat) / 10000) (803946132 + (32 * 11000 : Nat)) = 32 := by
   have := pixel_of_aligned 803946132 11000 32 (by norm_num) 0 (by norm_num) (by norm_num)
@@ -60,61 +49,8 @@ else is written. -/
 theorem line_placement {α} (xs : List α) (g : Seg) (hax : g.y0 = g.y1 ∨ g.x0 = g.x1) :
     ∃ w, segWrites xs g = some w ∧
       ∀ (p : Int × Int) (v : α), (p, v) ∈ w ↔
-        ∃ k : Nat, k < min xs.length g.len ∧ p = g.cellAt (g.len - 1 - k) ∧ xs[xs.length - 1 - k]? = some v := by
-  unfold segWrites Seg.len Seg.cellAt
-  by_cases hy : g.y0 = g.y1
-  · simp only [hy, if_true]
-    refine ⟨_, rfl, ?_⟩
-    intro p v
-    obtain ⟨r, c⟩ := p
-    simp only [List.mem_map, Prod.mk.injEq]
-    have hlen : (max g.x0 g.x1 - min g.x0 g.x1).toNat = (g.x1 - g.x0).natAbs := by omega
-    constructor
-    · rintro ⟨⟨c', v'⟩, hm, ⟨rfl, rfl⟩, rfl⟩
-      obtain ⟨k, hk, hc, hv⟩ := (mem_place1 _ _ (by omega) _ xs c' v').mp hm
-      rw [hlen] at hk hc
-      refine ⟨k, hk, ?_, hv⟩
-      refine ⟨rfl, ?_⟩
-      rw [hc]; unfold travelCell
-      by_cases hf : g.x1 < g.x0
-      · simp [hf]; rw [if_neg (by omega)]; omega
-      · simp [hf]; rw [if_pos (by omega)]; omega
-    · rintro ⟨k, hk, ⟨rfl, hc⟩, hv⟩
-      refine ⟨(c, v), ?_, ⟨rfl, rfl⟩, rfl⟩
-      apply (mem_place1 _ _ (by omega) _ xs c v).mpr
-      rw [hlen]
-      refine ⟨k, hk, ?_, hv⟩
-      rw [hc]; unfold travelCell
-      by_cases hf : g.x1 < g.x0
-      · simp [hf]; rw [if_neg (by omega)]; omega
-      · simp [hf]; rw [if_pos (by omega)]; omega
-  · have hx : g.x0 = g.x1 := by rcases hax with h | h; exact absurd h hy; exact h
-    simp only [hy, if_false, hx, if_true]
-    refine ⟨_, rfl, ?_⟩
-    intro p v
-    obtain ⟨r, c⟩ := p
-    simp only [List.mem_map, Prod.mk.injEq]
-    have hlen : (max g.y0 g.y1 - min g.y0 g.y1).toNat = (g.y1 - g.y0).natAbs := by omega
-    constructor
-    · rintro ⟨⟨r', v'⟩, hm, ⟨rfl, rfl⟩, rfl⟩
-      obtain ⟨k, hk, hc, hv⟩ := (mem_place1 _ _ (by omega) _ xs r' v').mp hm
-      rw [hlen] at hk hc
-      refine ⟨k, hk, ?_, hv⟩
-      refine ⟨?_, rfl⟩
-      rw [hc]; unfold travelCell
-      by_cases hf : g.y1 < g.y0
-      · simp [hf]; rw [if_neg (by omega)]; omega
-      · simp [hf]; rw [if_pos (by omega)]; omega
-    · rintro ⟨k, hk, ⟨hc, rfl⟩, hv⟩
-      refine ⟨(r, v), ?_, ⟨rfl, rfl⟩, rfl⟩
-      apply (mem_place1 _ _ (by omega) _ xs r v).mpr
-      rw [hlen]
-      refine ⟨k, hk, ?_, hv⟩
-      rw [hc]; unfold travelCell
-      by_cases hf : g.y1 < g.y0
-      · simp [hf]; rw [if_neg (by omega)]; omega
-      · simp [hf]; rw [if_pos (by omega)]; omega
-
+        ∃ k : Nat, k < min xs.length g.len ∧ p = g.cellAt (g.len - 1 - k) ∧ xs[xs.length - 1 - k]? = some v :=
+  segWrites_spec xs g hax
 
 /-- one sample per pixel (`n = L`): travel step `j` of the line holds sample `j` — the line is
 reproduced, in the orientation of travel, for all four directions -/
